@@ -1,5 +1,6 @@
 import MpVerif.C20.ModelGraph
 import MpVerif.C20.ModelExport
+import MpVerif.C20.ModelEscape
 /-! Line driver for C20.  One op per line, one answer line per op; no logic of its own.
 
   W <op>*            writer machine: ops `k:<hex>` `e` `s:<hex>` `t:<hex>` `c`  ->  hex of the text written
@@ -11,6 +12,7 @@ import MpVerif.C20.ModelExport
   o sense lin q1 q2  one delivered objective (sense 0/1; comma-separated variable lists or `-`), in index order
   C <hexty> g <hexname>   one delivered constraint (short type name, group, name)
   check              -> `ok` | `fail <reasons>`
+  EB <hex>           byte-level `EscapeJSON` model: hex of `escapeB` of the given bytes
   WA <op>* / XA <op>*  which arms of `step`/`escChar` resp. `addEntry`/`addRange` the sequence takes (coverage note only)
   X <op>*            link-export protocol: ops `a:<c|o|m>:<src>:<sb>:<se>:<dst>:<db>:<de>` (AddEntry) and `f` (finish)
                      -> `<hex of the exported text> <final entries by registered range> all=<0|1> late=<0|1>`
@@ -118,6 +120,14 @@ partial def loop (h : IO.FS.Stream) (out : IO.FS.Stream) (st : DState) : IO Unit
   | "XA" :: ops =>
     match ops.mapM parseXOp with
     | some os => out.putStrLn (" ".intercalate (xrunArms {} os)); loop h out st
+    | none => out.putStrLn "bad-op"; loop h out st
+  | ["EB", hx] =>
+    match (if hx == "-" then some ByteArray.empty else unhexBytes hx.toList) with
+    | some b =>
+      let o := escapeB (b.toList.map (·.toNat))
+      let hd (n : Nat) : Char := if n < 10 then Char.ofNat (48 + n) else Char.ofNat (87 + n)
+      out.putStrLn (if o.isEmpty then "-" else String.ofList (o.flatMap (fun x => [hd (x / 16), hd (x % 16)])))
+      loop h out st
     | none => out.putStrLn "bad-op"; loop h out st
   | "X" :: ops =>
     match ops.mapM parseXOp with
